@@ -410,6 +410,18 @@ def quotaUpdate (s : State) (n parent : Nat) (isParent lent : Bool) (mx mn : RL)
   | none => quotaSet s n parent isParent lent mx mn
   | some q => if isQuotaChange s.dims q parent isParent lent mx mn then quotaSet s n parent isParent lent mx mn else s
 
+/-- `core.NewQuotaInfoFromQuota` (quota_info.go): the allow-lent flag a quota OBJECT yields.  With the alpha feature
+    gate `ElasticQuotaGuaranteeUsage` on, the label `allow-lent-resource` is ignored (`allowLentResource = false`), so
+    the manager never sees an allow-lent flip (`IsQuotaChange` compares false with false) and such an update is
+    dropped or treated as whatever else it changes.  The gate touches nothing else of the model: the operands of
+    `PreFilter` (used, limit, non-preemptible used, declared min) and the used side of the accounting are the same;
+    what the gate adds (Allocated / Guaranteed, runtime calculator) only feeds the runtime list, an input here. -/
+def declaredLent (guaranteeUsage lent : Bool) : Bool := if guaranteeUsage then false else lent
+
+/-- `OnQuotaAdd` / `OnQuotaUpdate` of an object under a given setting of the gate. -/
+def quotaUpdateGated (guaranteeUsage : Bool) (s : State) (n parent : Nat) (isParent lent : Bool) (mx mn : RL) : State :=
+  quotaUpdate s n parent isParent (declaredLent guaranteeUsage lent) mx mn
+
 /-- `RefreshRuntime` wrote a new `CalculateInfo.Runtime` (value supplied by the environment). -/
 def setRuntime (s : State) (n : Nat) (r : RL) : State :=
   { s with quotas := s.quotas.map fun q => if q.name = n then { q with runtime := r } else q }
